@@ -1040,6 +1040,9 @@ func (x *X) invoke(fr *Frame, st *State, recv SV, m *types.Func, args []SV, pos 
 		if rets, ok := x.invokeByCases(fr, st, rv, m, args, pos); ok {
 			return rets
 		}
+		if x.pure == 0 && x.invokeEffectByCases(fr, st, rv, m, args, pos) {
+			return nil
+		}
 		// an interface of the module with a single implementing type whose method
 		// is under contract (the parser's lexer interface): the call is a call of
 		// that method, on the assumption - recorded - that the receiver is of the
@@ -1604,4 +1607,70 @@ func (x *X) invokeSoleImplementer(fr *Frame, st *State, recv Term, m *types.Func
 	x.enc.assumption("the only implementation of " + sig.Recv().Type().String() + " in the module is " + impls[0].String())
 	x.vc.assume(mkImplies(st.reach, cond))
 	return x.callStatic(fr, st, fn, append([]SV{pv}, args...), nil, pos), true
+}
+
+// invokeEffectByCases: inside the declaring package, a call through a module
+// interface of a method without results (a setter such as Node.setNext) is a
+// call of the implementing type's method, by case analysis over the
+// implementing types: each case applies that method's contract (or inlines
+// it) under its type test, and the states are merged. A receiver of none of
+// the module's types cannot be given to this code by the module itself; that
+// case leaves the state unchanged and is recorded as an assumption.
+func (x *X) invokeEffectByCases(fr *Frame, st *State, recv Term, m *types.Func, args []SV, pos token.Pos) bool {
+	if x.top == nil || x.top.Pkg == nil || m.Pkg() != x.top.Pkg.Pkg {
+		return false
+	}
+	sig := m.Type().(*types.Signature)
+	if sig.Results().Len() != 0 {
+		return false
+	}
+	for i := 0; i < sig.Params().Len(); i++ {
+		// printers (writeTo) take an opaque buffer and keep their output-trace model
+		if pt, ok := sig.Params().At(i).Type().Underlying().(*types.Pointer); ok && x.enc.isOpaqueStruct(pt.Elem()) {
+			return false
+		}
+	}
+	iface, ok := sig.Recv().Type().Underlying().(*types.Interface)
+	if !ok {
+		return false
+	}
+	type cas struct {
+		cond Term
+		fn   *ssa.Function
+		recv SV
+	}
+	var cases []cas
+	for _, cand := range x.implementers(iface) {
+		sel := x.prog.MethodSets.MethodSet(cand).Lookup(m.Pkg(), m.Name())
+		if sel == nil {
+			return false
+		}
+		fn := x.prog.MethodValue(sel)
+		if fn == nil || len(fn.Blocks) == 0 {
+			return false
+		}
+		cond, pv := x.typeTest(recv, cand)
+		cases = append(cases, cas{cond, fn, pv})
+	}
+	if len(cases) == 0 {
+		return false
+	}
+	var sts []*State
+	var none []Term
+	for _, c := range cases {
+		sc := st.clone()
+		sc.reach = x.vc.define("reach", mkAnd(st.reach, c.cond))
+		x.callStatic(fr, sc, c.fn, append([]SV{c.recv}, args...), nil, pos)
+		sts = append(sts, sc)
+		none = append(none, mkNot(c.cond))
+	}
+	sd := st.clone()
+	sd.reach = x.vc.define("reach", mkAnd(append([]Term{st.reach}, none...)...))
+	sts = append(sts, sd)
+	x.enc.assumption("a receiver of " + m.FullName() + " that is of none of the module's implementing types leaves the module's objects unchanged")
+	reach := st.reach
+	merged := x.merge(sts)
+	st.mem = merged.mem
+	st.reach = reach
+	return true
 }
